@@ -1,4 +1,5 @@
 """C20 — the command line writes exactly what the library returns."""
+import common
 import io
 import os
 import random
@@ -25,7 +26,7 @@ def run(out, tier, seed, model_ok):
     base = os.path.join(WORK, "c20_%d" % os.getpid())
     shutil.rmtree(base, ignore_errors=True)
     os.makedirs(base)
-    n = 45 if tier == "quick" else 400
+    n = common.deepen(45 if tier == "quick" else 400)
     lines, meta = [], []
     for i in range(n):
         d = os.path.join(base, "c%d" % i)
